@@ -5,7 +5,10 @@ from .. import models as M
 from . import common
 from . import joinmodel as J
 
-RULE = ("the full decision table join kind {inner, left, full} x expect {one_to_one, many_to_one, one_to_many, many_to_many} x left keys unique? x "
+from . import recompute
+
+RULE = ("[plus the shared recompute-after-history monitor: this property's operations evaluated on long-lived objects between in-place writes / renames must equal the same operations on fresh objects rebuilt from the current contents] "
+	"the full decision table join kind {inner, left, full} x expect {one_to_one, many_to_one, one_to_many, many_to_many} x left keys unique? x "
 	"right keys unique? (48 cells) is executed; every cell is realised by key multisets in which the duplicate sits among matched rows only, among "
 	"unmatched rows only, among None keys, in a composite key (with tuple-unique but component-duplicated controls), at the last position, at the "
 	"first position, plus sampled tables and join / in-place key edit / join histories on the same table objects; the call must raise SerifValueError iff a required uniqueness fails, accepted calls must return exactly "
@@ -14,7 +17,7 @@ RULE = ("the full decision table join kind {inner, left, full} x expect {one_to_
 ASSUMPTIONS = ["uniqueness is computed by the model on whole key tuples with None equal to None", "any exception type is accepted as rejection of an invalid expect value"]
 EXHAUSTIVE = {"flag": True, "scope": "the 48-cell decision table, each cell realised by every listed duplicate-placement variant"}
 ANCHOR_FUNCS = ["table:Table.inner_join", "table:Table.join", "table:Table.full_join"]
-REQUIRED_STRATA = {"cell": 48 * 6, "invalid-expect": 20, "sampled-cell": 100, "cell-history": 150}
+REQUIRED_STRATA = {"recompute": 200, "cell": 48 * 6, "invalid-expect": 20, "sampled-cell": 100, "cell-history": 150}
 
 EXPECTS = ("one_to_one", "many_to_one", "one_to_many", "many_to_many")
 HOWS = ("inner", "left", "full")
@@ -110,13 +113,16 @@ def run_invalid(chk, spec):
 
 
 RUNNERS = {"cell": run_cell, "invalid": run_invalid, "cell_history": run_cell_history}
+RUNNERS["recompute"] = recompute.runner("C11")
 
 
 def realise(rng, lu, ru, variant, kind="int"):
 	"""key columns (1 or 2 per side) realising (left unique?, right unique?) with the duplicate placed per variant"""
-	dom = {"int": [1, 2, 3, 4, 5, 6], "str": ["a", "b", "c", "d", "e", "f"]}[kind]
+	dom = {"int": [1, 2, 3, 4, 5, 6], "str": ["a", "b", "c", "d", "e", "f"], "hash": [-1, 7, -2, 3, 2**61 - 1, 0]}[kind]     # hash(-1) == hash(-2), hash(0) == hash(2**61-1)
 	m1, m2, lonly, ronly, lonly2, ronly2 = dom
 	if variant == "composite":
+		if kind == "hash":
+			m1, m2, lonly, ronly = -1, -2, 0, 2**61 - 1
 		# tuple-unique baseline with repeated components: (m1,x) (m1,y) (m2,x)
 		L = [(m1, "x"), (m1, "y"), (m2, "x"), (lonly, "x")]
 		R = [(m1, "x"), (m2, "x"), (m2, "y"), (ronly, "y")]
@@ -161,6 +167,7 @@ def spec_from_keys(rng, lk, rk, how, expect, variant):
 
 
 def run(chk):
+	recompute.add_cases(chk, "C11")
 	rng = chk.rng
 	idx = 0
 	for how in HOWS:
@@ -168,7 +175,7 @@ def run(chk):
 			for lu in (True, False):
 				for ru in (True, False):
 					for variant in VARIANTS:
-						for kind in ("int", "str"):
+						for kind in ("int", "str", "hash"):
 							idx += 1
 							if not chk.mine(idx):
 								continue
